@@ -190,6 +190,18 @@ def method_aliasing():
     c1.transpose("5")
     if [str(tn.get_Note(i, 0)) for i in range(3)] != before: bad.append("StringTuning.get_Note(open string) hands out the tuning's own note")
     if [str(n) for n in c2] != [str(n) for n in tn.frets_to_NoteContainer([0, 0, 2])]: bad.append("frets_to_NoteContainer: two results share notes")
+    # a tuning built from the caller's Note objects (plain strings and courses) copies them: what the caller does to his notes
+    # afterwards does not retune the instrument, and two tunings built from the same notes do not share them
+    from mingus.containers import Note as _N
+    mine = [_N("E", 2), _N("A", 2), _N("D", 3)]
+    pair = [_N("G", 3), _N("G", 4)]
+    ta = _tun.StringTuning("x", "y", mine); tb_ = _tun.StringTuning("x", "z", mine); tc = _tun.StringTuning("x", "c", [pair, pair])
+    before = [str(ta.get_Note(i, 0)) for i in range(3)]; before_c = [[str(n) for n in crs] for crs in tc.tuning]
+    mine[0].transpose("3"); mine[1].octave_up(); pair[0].octave_down()
+    if [str(ta.get_Note(i, 0)) for i in range(3)] != before: bad.append("StringTuning(list of Note objects) keeps the caller's notes: changing them afterwards retunes the instrument")
+    if [[str(n) for n in crs] for crs in tc.tuning] != before_c: bad.append("StringTuning(courses of Note objects) keeps the caller's notes")
+    ta.tuning[2].octave_up()
+    if str(tb_.get_Note(2, 0)) != "'D-3'" and str(tb_.get_Note(2, 0)) != before[2]: bad.append("two tunings built from the same notes share them")
     # the list of excluded strings handed to a fingering search: unchanged whether the search succeeds or gives up with an error
     gt = _tun.get_tuning("guitar", "standard")
     for notes_, ex in ((["E-3", "A-3"], [0]), (["E-3", "A-3", "D-4"], []), (["E-3", "A-3", "H-3"], [0]), (["E-3", "A-3", None], [5]),
@@ -415,7 +427,10 @@ def find_notes_history(tables, max_note):
     warm, cold = [], []
     for tb in tables:
         t = [(float(f), float(a)) for f, a in tb]
+        keep_t = list(t)
         r = fft.find_notes(t, max_note)
+        if t != keep_t:
+            warm.append(["find_notes changed the caller's table (order or content)"])
         warm.append([[None if n is None else int(n), F(a)] for n, a in r if a != 0])
         try:
             r[0] = ("scribble", 1e9); r.append(("scribble", 1e9))
